@@ -11,7 +11,7 @@
 (*                                                                                       *)
 (* Unlogged: the linearization point.  Lin(o) is a silent step composed into Next: an op  *)
 (* takes effect at some point between its Call and its Ret.  A write whose Ret reports an *)
-(* error (hot-key throttle, too large, closed) never takes effect.  A Get returns the     *)
+(* error (hot-key throttle, too large, closed, I/O fault) never takes effect.  A Get returns the     *)
 (* register's value at its linearization point.  A write that never returned may or may   *)
 (* not have taken effect.  Every written value is unique, NOTFOUND denotes a deleted or    *)
 (* never-written key.                                                                     *)
@@ -29,7 +29,7 @@ NOTFOUND == "NOTFOUND"
 PENDING  == "PENDING"
 ANY      == "ANY"          \* reply of a Get issued on a closing/closed DB: not constrained by C34
 OK       == "ok"
-WriteErrors == {"hot", "toobig", "blocked"}
+WriteErrors == {"hot", "toobig", "blocked", "ioerr"}   \* ioerr: an I/O fault injected by the driver
 Writes   == {"Set", "Del"}
 
 VARIABLES l,        \* next trace line to explain
